@@ -419,6 +419,8 @@ enum UKind {
     Seqs { n: usize },
     /// deviations on one-record files: reduced variant idx
     Devs { idx: usize, dmax: u8 },
+    /// size ladder (large parts / many parts), with and without the M block
+    Ladder { idx: usize },
 }
 
 fn run_case(case: &Case, ctx: &mut Ctx) {
@@ -440,7 +442,7 @@ fn run_case(case: &Case, ctx: &mut Ctx) {
     oh.u64(case.file.ty.code() as u64);
     oh.u64(obs.read.as_ref().map(|v| v.len() as u64).unwrap_or(999));
     ctx.case_done(h, nontrivial, oh.finish());
-    if case.file.records.len() == 2 && !case.file.trailing.is_empty() {
+    if case.file.records.len() == 2 && !case.file.trailing.is_empty() && bytes.len() < 2000 {
         ctx.sample(|| case.to_json());
     }
     for (sig, d) in judge(case, &obs) {
@@ -487,6 +489,17 @@ fn enumerate(u: &Unit, tier: Tier, ctx: &mut Ctx, tick: &dyn Fn()) {
                         tick();
                     }
                 }
+            }
+        }
+        UKind::Ladder { idx } => {
+            let big = crate::structs::ladder(ty)[*idx].clone();
+            let red = reduced_variants(ty);
+            for with_m in m_variants(ty) {
+                let bbox = codec::true_bbox(&big);
+                let body = MBody::Shape { shape: big.clone(), bbox, with_m };
+                run_case(&Case { file: file_of(ty, vec![body.clone()], &[1], vec![]), ndev: 0 }, ctx);
+                run_case(&Case { file: file_of(ty, vec![red[1 % red.len()].clone(), body, red[0].clone()], &[1, 2, 3], vec![0xAB; 13]), ndev: 0 }, ctx);
+                tick();
             }
         }
         UKind::Devs { idx, dmax } => {
@@ -618,6 +631,9 @@ pub fn check(tier: Tier) -> i32 {
         }
         units.push(Unit { ty, kind: UKind::Seqs { n: 2 } });
         units.push(Unit { ty, kind: UKind::Seqs { n: 3 } });
+        for idx in 0..crate::structs::ladder(ty).len() {
+            units.push(Unit { ty, kind: UKind::Ladder { idx } });
+        }
         for idx in 1..reduced_variants(ty).len() {
             units.push(Unit { ty, kind: UKind::Devs { idx, dmax: 1 } });
             if tier == Tier::Thorough && idx <= 2 {
